@@ -145,7 +145,9 @@ JOIN_TR = ("; " + CORR + TR.format("the right-side hash index loop of inner_join
                                    "matching right rows{}"))
 EXTRA = {"C09": JOIN_TR.format(""), "C10": JOIN_TR.format(""),
          "C11": JOIN_TR.format("; the expect guard and the uniqueness flags - EqJoin.v, 9 theorems"),
-         "C20": "; " + CORR}
+         "C20": "; " + CORR + TR.format("the row budget of _format_column, the column budget of _repr_table, the limits - EqRepr.v, 7 theorems: "
+                                        "closed form of the preview for every int limit, generated = Model/Repr, the rows shown are rows of "
+                                        "the column in order and the gap appears exactly when rows are hidden")}
 JOIN_TECH = "Rocq proof over the join model (hash index + probe loops refine the nested-loop specification); index loop regenerated from source and re-proved; differential correspondence under 3 hash seeds"
 
 
